@@ -840,6 +840,20 @@ run_case(long idx, vf_rng *r)
 	for (int i = 0; i < cx->nrec; i++) {
 		arec *a = &cx->rec[i];
 		if (atomic_load(&a->freed)) continue;
+		// everything was cancelled: an operation that is still busy after
+		// 15 s of run time will never complete (its callback is lost);
+		// say so instead of hanging in nng_aio_wait
+		for (int k = 0; nng_aio_busy(a->aio); k++) {
+			if (k >= 15000) {
+				char key[96];
+				snprintf(key, sizeof(key), "C02/lost-completion/%s/never-completes", kind_names[a->kind]);
+				vf_violation(key, "%s: operation still pending 15 s after nng_aio_cancel (submissions %d, callbacks %d); its completion is lost", kind_names[a->kind], atomic_load(&a->n_submit), atomic_load(&a->n_cb));
+				int code = vf_finish();
+				_exit(code != 0 ? code : 1); // cannot wait for / free this aio
+			}
+			if ((k % 100) == 99) nng_aio_cancel(a->aio);
+			vf_msleep(1);
+		}
 		nng_aio_wait(a->aio);
 		check_not_running(a, "wait");
 		// a callback may have resubmitted between cancel and wait
